@@ -171,9 +171,16 @@ pub fn gen(seed: u64, thorough: bool) {
     // a freshly loaded engine each few cases, so `load_model` itself is exercised
     let ncases = if thorough { 20000 } else { 1500 };
     let mut engine = Engine::load(&[BUNDLED_VOICE]).expect("bundled voice loads");
+    let src = crate::engine::Sources::new();
+    let mut vrng = Rng::new(seed ^ 0xc20_7001);
     for i in 0..ncases {
         if i % 500 == 0 {
             engine = Engine::load(&[BUNDLED_VOICE]).expect("bundled voice loads");
+        } else if i % 100 == 50 {
+            // the setters' laws do not depend on the voice: conditions loaded from generated voices too — two or three
+            // streams, mel-cepstral or LSP (stage 1..4, log or linear gain), other rates and frame periods (seeded change
+            // C20h: `set_beta` limited to 0.5 for LSP voices)
+            engine = src.any_engine(&mut vrng).0;
         }
         let k = if i == 0 { 0 } else { rng.range(1, 8) };
         println!("{}", history_line(&mut rng, &engine, k));
